@@ -24,6 +24,9 @@ let () =
          List.iter bump kinds
        done;
        (match get "--twin" "" args with "" -> () | f -> let oc = open_out f in Buffer.output_buffer oc twin; close_out oc)
+   | "views-exhaustive" ->
+       let n = Views.exhaustive (geti "--maxrank" 2) (geti "--maxext" 3) (geti "--maxlen" 2) prog obs in
+       bump (Printf.sprintf "programs%d" n)
    | "iters" ->
        let c = { Views.maxrank = geti "--maxrank" 4; maxops = geti "--maxops" 4; rebased = has "--rebased"; maxd = 6 } in
        let maxsteps = geti "--maxsteps" 12 in
